@@ -16,7 +16,8 @@
 (***************************************************************************)
 EXTENDS C09, Json, Params
 
-Obs == ndJsonDeserialize(ObsFile)
+CONSTANT Chunk   \* suffix of the observation file judged by this run ("" = ObsFile itself)
+Obs == ndJsonDeserialize(ObsFile \o Chunk)
 N == Len(Obs)
 W == 16
 
@@ -30,6 +31,7 @@ Ch(name, out, ok, cls) == IF out.k = "na" \/ ok THEN "" ELSE name \o ":" \o cls
 
 Head1(c) == c.x.t \o "|p" \o ToString(c.x.p) \o "|" \o c.op \o "|" \o c.q.unit \o "|" \o ClsOf(c.q.unit) \o "|"
             \o (IF IsTemporalUnit(c.q.unit) THEN RelOf(RankOf(c.q.unit), c.x.p) ELSE "none")
+            \o (IF c.x.t # "time" THEN "" ELSE IF Wraps(c.x, c.op, c.q) \/ (c.kind = "cmp" /\ Wraps(c.x, c.op, c.q2)) THEN "|wrap" ELSE "|nowrap")
 
 VerdictAr(o) ==
   LET c == o.cs
@@ -37,7 +39,8 @@ VerdictAr(o) ==
       got == JoinNE(<<Ch("direct", o.outs.direct, AcceptValue(o.outs.direct, P), ObsClassAr(o.outs.direct, c)),
                       Ch("lit",    o.outs.lit,    AcceptValue(o.outs.lit, P),    ObsClassAr(o.outs.lit, c)),
                       Ch("env",    o.outs.env,    AcceptValue(o.outs.env, P),    ObsClassAr(o.outs.env, c)),
-                      Ch("fhir",   o.outs.fhir,   AcceptValue(o.outs.fhir, P),   ObsClassAr(o.outs.fhir, c))>>)
+                      Ch("fhir",   o.outs.fhir,   AcceptValue(o.outs.fhir, P),   ObsClassAr(o.outs.fhir, c)),
+                      Ch("eqr",    o.outs.eqr,    AcceptBool(o.outs.eqr, P),     ObsClassBool(o.outs.eqr))>>)
   IN [id |-> o.id, ok |-> got = "",
       sig |-> IF got = "" THEN "" ELSE "temporal|ar|" \o Head1(c) \o "|" \o AmtClass(c.q.th) \o "|exp=" \o ExpClass(P, c.x) \o "|got=" \o got,
       want |-> P]
